@@ -51,7 +51,7 @@ class MultiCompartmentedEdgeLocus(CompartmentedEdgeLocus):
         '''Return the compartments of the node endpoints we monitor.
 
         :returns: the compartments'''
-        return list(self._rights.union(set(self._left)))
+        return list(self._rights.union(set([self._left])))
 
 
     def matches(self, g: Graph, n: Node, m: Node) -> int:
